@@ -94,10 +94,74 @@ def param_values(bd, rng, name, key):
     return vals
 
 
-def param_sets(m0, rng, name, limit):
+def _ulps(v):
+    return [("", v), ("-ulp", float(np.nextafter(v, -np.inf))), ("+ulp", float(np.nextafter(v, np.inf)))]
+
+
+def special_sets(name, dim, b):
+    """'special relations' stream: parameter values where the special-function code switches branches (integer / half-integer
+    orders, documented thresholds, the dimension-dependent bound), written as the decimal values a user would type -- so the
+    derived order is an integer in exact arithmetic but possibly 1 ulp off in floating point -- plus 1-ulp neighbours.
+    Always appended to the sampled sets (not subject to the sampling limit); values outside the bounds are dropped."""
+    out = []
+    if name == "TPLStable":
+        # s = 1 + 2 hurst / alpha: integer for ratio 1, 2, 3, 4, 5; half-integer 1.5, 2.5
+        pairs = [(0.6, 0.4), (0.3, 0.2), (0.15, 0.1), (0.45, 0.3), (0.9, 0.6), (0.75, 0.5), (0.99, 0.66), (0.2, 0.4), (0.35, 0.7),
+                 (0.3, 0.6), (0.7, 1.4), (0.55, 1.1), (0.3, 0.3), (0.7, 0.7), (0.7, 0.35), (0.9, 0.45), (0.5, 0.2), (0.6, 0.2),
+                 (0.45, 0.6), (0.75, 0.6), (0.5, 2.0), (0.5, 1.0)]
+        for i, (h, a) in enumerate(pairs):
+            for tag, hv in (_ulps(h) if i % 3 == 0 else [("", h)]):
+                out.append((("hurst:%g%s" % (h, tag), "alpha:%g" % a, "len_low:%g" % (0.0 if i % 2 == 0 else 0.5)),
+                            dict(hurst=hv, alpha=a, len_low=0.0 if i % 2 == 0 else 0.5)))
+    elif name == "TPLExponential":      # s = 1 + 2 hurst: integer at hurst = 1/2, half-integer at 1/4, 3/4
+        for h in (0.5, 0.25, 0.75, 0.15 + 0.35, 0.1 * 5):
+            for tag, hv in _ulps(h):
+                out.append((("hurst:%g%s" % (h, tag), "len_low:0"), dict(hurst=hv, len_low=0.0)))
+        out.append((("hurst:0.5", "len_low:0.5"), dict(hurst=0.5, len_low=0.5)))
+    elif name == "TPLGaussian":         # s = 1 + hurst: half-integer at hurst = 1/2
+        for tag, hv in _ulps(0.5):
+            out.append((("hurst:0.5%s" % tag, "len_low:0"), dict(hurst=hv, len_low=0.0)))
+        out.append((("hurst:0.5", "len_low:0.5"), dict(hurst=0.5, len_low=0.5)))
+    elif name == "Integral":            # s = 1 + nu/2 and (nu + d)/2: integer, half-integer, 1 ulp off, decimal products
+        for v in (2.0, 4.0, 1.0, 3.0, 6.0, 10.0, 30.0, 48.0, 0.1 * 3 * 10, 0.7 * 10 - 1.0, 0.2 * 3 * 10, 1.1 * 10 - 5):
+            for tag, vv in _ulps(v):
+                out.append((("nu:%.17g%s" % (v, tag),), dict(nu=vv)))
+        out += [(("nu:50-ulp",), dict(nu=float(np.nextafter(50.0, 0)))), (("nu:%d-d" % (4 - dim % 2),), dict(nu=float(4 - dim % 2)))]
+    elif name == "Matern":
+        for v in (0.5, 1.5, 2.5, 20.0, 0.1 * 5, 0.3 * 5):
+            for tag, vv in _ulps(v):
+                out.append((("nu:%.17g%s" % (v, tag),), dict(nu=vv)))
+    elif name in ("Stable", "Rational"):
+        for v in (1.0, 2.0, 0.5, 0.1 * 10, 0.2 * 10, 1.5, 0.3):
+            for tag, vv in _ulps(v):
+                out.append((("alpha:%.17g%s" % (v, tag),), dict(alpha=vv)))
+    elif name in ("SuperSpherical", "JBessel", "TPLSimple"):
+        lo = float(b["nu"][0])
+        for v in (lo, lo + 0.5, lo + 1.0, 1.0, 1.5, 2.0, 2.5, 3.0):
+            for tag, vv in _ulps(v):
+                out.append((("nu:%.17g%s" % (v, tag),), dict(nu=vv)))
+
+    def inside(k, v):
+        bd = b[k]
+        t = bd[2] if len(bd) > 2 else "cc"
+        return (v >= bd[0] if t[0] == "c" else v > bd[0]) and (v <= bd[1] if t[1] == "c" else v < bd[1])
+    seen, res = set(), []
+    for sig, p in out:
+        key = tuple(sorted(p.items()))
+        if key not in seen and all(inside(k, v) for k, v in p.items()):
+            seen.add(key)
+            res.append((("special",) + tuple(sig), p))
+    return res
+
+
+def param_sets(m0, rng, name, limit, special=True):
     b = m0.default_opt_arg_bounds()
     if not b:
         return [((), {})]
+    return _sampled_sets(b, rng, name, limit) + (special_sets(name, m0.dim, b) if special else [])
+
+
+def _sampled_sets(b, rng, name, limit):
     keys = list(b)
     grids = [param_values(b[k], rng, name, k) for k in keys]
     combos = list(itertools.product(*grids))
@@ -280,7 +344,7 @@ def run(ctx, only=None):
         if drv:
             drv.close()
     if getattr(ctx, "more_violations", 0):
-        ctx.notes.append("%d further failing inputs were found after the first 25 and not written out" % ctx.more_violations)
+        ctx.notes.append("%d further failing inputs were found beyond the first 6 per class and not written out" % ctx.more_violations)
     if (tie_broken or not proofs_ok) and not [v for v in ctx.violations if not v["no_input"]]:
         ctx.violation("proof/tie", "proof obligations or the model/code tie of C02 no longer check: %s" % (
             "; ".join(tie_broken[:4]) or getattr(ctx, "proof_failure", {}).get("output_tail", "")[-600:]),
@@ -349,7 +413,7 @@ def correspondence(ctx, gs, gsp, check_arg_in_bounds, drv, rng, thorough, fail):
                 fail("dimension handling %s(%s): dim %s (expected %d), warning %s, model check_dim %s" % (name, kw, m.dim, d_expect, warned, cd),
                      dict(cls=name, kw=kw))
     # ---- elementary correlations
-    hs = [0.0, 1e-300, 1e-16, 1e-12, 1e-8, 1e-3, 0.1, 0.5, 0.999999, 1.0, 1.0000001, 2.5, 30.0, 1e3]
+    hs = [0.0, 1e-300, 1e-16, 1e-14, 1e-12, 1e-10, 1e-8, 1e-6, 1e-3, 0.1, 0.5, 0.999999, 1.0, 1.0000001, 2.5, 30.0, 1e3]
     hs += [float(x) for x in 10.0 ** rng.uniform(-6, 1.5, size=12 if thorough else 5)]
     for name in ELEMENTARY:
         m0, _, _ = make(gs, name, dim=1)
@@ -399,7 +463,7 @@ def correspondence(ctx, gs, gsp, check_arg_in_bounds, drv, rng, thorough, fail):
 LAGS = np.concatenate([[0.0], 10.0 ** np.arange(-16, 3.01, 0.25)])
 
 
-def configs(gs, rng, thorough, limit):
+def configs(gs, rng, thorough, limit, ulp=True):
     """(class, dim config, dim, parameter signature, parameters) for every configuration accepted without dimension warning"""
     for name in NAMES:
         for cfg in dim_configs(thorough):
@@ -407,6 +471,8 @@ def configs(gs, rng, thorough, limit):
             if warned:
                 continue
             for sig, p in param_sets(m0, rng, name, limit):
+                if not ulp and any("ulp" in x for x in sig):
+                    continue          # 1-ulp neighbours of the special values: cor probe / correspondence / thorough tier only
                 yield name, cfg, m0.dim, sig, p
 
 
@@ -444,7 +510,9 @@ def finding_key(name, cfg, sig, what):
 def report(ctx, stage, what, case, name, cfg, sig, kind):
     # Integral: exp_int's inc_gamma recursion overflows for large non-integer orders at tiny arguments (known, shared with C03)
     key = finding_key(name, cfg, sig, kind)
-    if len(ctx.violations) >= 25:          # enough failing inputs recorded for one run; keep counting quietly
+    per = ctx.__dict__.setdefault("per_class", {})
+    per[name] = per.get(name, 0) + 1
+    if per[name] > 6:                      # enough failing inputs of this class written out for one run; keep counting quietly
         ctx.more_violations = getattr(ctx, "more_violations", 0) + 1
         return
     nu = case.get("params", {}).get("nu", 0)
@@ -516,7 +584,7 @@ def probe_spectrum(ctx, gs, rng, thorough):
     threshold -1e-3 max S, and not for parameter sets the class itself warns about as unstable)"""
     kgrid = np.concatenate([[0.0], 10.0 ** np.linspace(-3, 3, 49 if thorough else 25)])
     kq = np.linspace(0.5, 60.0, 120 if thorough else 40)
-    for name, cfg, d, sig, p in configs(gs, rng, thorough, 12 if thorough else 5):
+    for name, cfg, d, sig, p in configs(gs, rng, thorough, 12 if thorough else 5, ulp=thorough):
         L = float(rng.choice([0.4, 1.0, 6.0]))
         case = dict(probe="spectrum", cls=name, cfg=cfg, params=p, len_scale=L)
 
@@ -569,7 +637,7 @@ def probe_eig(ctx, gs, rng, thorough):
     """minimum eigenvalue of covariance matrices built by the implementation (cov_spatial: rotation + anisotropy)"""
     n = 80 if thorough else 40
     stage = "probe: minimum eigenvalue of the covariance matrix"
-    for name, cfg, d, sig, p in configs(gs, rng, thorough, 20 if thorough else 5):
+    for name, cfg, d, sig, p in configs(gs, rng, thorough, 20 if thorough else 5, ulp=thorough):
         for rep in range(3 if thorough else 2):
             L = float(rng.choice([0.3, 1.0, 5.0, 40.0]))
             kw = dict(len_scale=L, var=float(rng.choice([1.0, 2.5])))
